@@ -270,6 +270,12 @@ def run(ctx):
                         "(C23_full_map_diverges otherwise)"]
     ctx.prove()
 
+    # deterministic two-thread schedules: a local open placed inside the peer open's reservation
+    for c0, live0 in [(M24 - 1, []), (0, []), (0xFFFFF0, []), (M24 - 2, [M24 - 2, M24 - 1, 0]),
+                      (5, [5, 6]), (rng.randrange(M24), [])]:
+        for pause_at in range(1, len(live0) + 2):
+            check_race(ctx, c0, live0, pause_at)
+
     cases = []
     for _ in range(300 * scale):
         c0, live0, ops = gen_history(rng)
@@ -282,9 +288,13 @@ def run(ctx):
         if any(o[0] == "peer" for o in ops):
             ctx.dist["with-peer-open"] = ctx.dist.get("with-peer-open", 0) + 1
         cases.append((case, flat, exp))
-    bad = ctx.model_mismatches(
-        "run_history", "(Z * list Z * list op)",
-        [(coq((c["c0"], c["live0"], [tuple(o) for o in flat])), exp) for c, flat, exp in cases])
+    try:
+        bad = ctx.model_mismatches(
+            "run_history", "(Z * list Z * list op)",
+            [(coq((c["c0"], c["live0"], [tuple(o) for o in flat])), exp) for c, flat, exp in cases])
+    except RuntimeError as e:       # e.g. the translator failed closed and Gen/C23_gen.v is missing
+        bad = []
+        ctx.disagree("the model could not be evaluated: %s" % str(e)[:300])
     for i in bad[:3]:
         ctx.disagree("id allocation differs from the model", case=cases[i][0], impl=cases[i][2])
     for c, flat, exp in cases:
@@ -318,8 +328,123 @@ def run(ctx):
     d.finish()
 
 
+RACE_WD = 5.0
+
+
+def race_case(c0, live0, pause_at):
+    """Deterministic two-thread schedule on the real code: the peer-open thread (the real
+    _parse_channel_open) is paused inside _next_channel, right after its pause_at-th look-up of the live map
+    (it has read the counter and not yet advanced it).  At that point a local open (open_channel's critical
+    section: lock / _next_channel / put) runs if and only if Transport.lock is free -- when the reservation is
+    made under the lock, as it must be, the lock is busy and the local open runs after the peer open instead.
+    No timing is involved: the switch points are the map look-up and a non-blocking probe of the lock."""
+    d = Driver(c0, live0)
+    t = d.t
+    paused, resume = threading.Event(), threading.Event()
+    peer_tid = [None]
+    calls = [0]
+    orig_get = t._channels.get
+
+    def get(chanid):
+        r = orig_get(chanid)
+        if threading.get_ident() == peer_tid[0] and not resume.is_set() and d.reserved is None:
+            calls[0] += 1
+            if calls[0] == pause_at:
+                paused.set()
+                resume.wait(RACE_WD)
+        return r
+
+    t._channels.get = get
+    from paramiko.message import Message
+    m = Message()
+    m.add_string("session")
+    m.add_int(41)
+    m.add_int(1 << 20)
+    m.add_int(1 << 15)
+    m.rewind()
+    d.accept, d.inner, d.where = True, [], "race/peer"
+    d.before = (t._channel_counter, set(live0))
+    d.reserved = None
+    errs = []
+
+    def peer():
+        peer_tid[0] = threading.get_ident()
+        try:
+            t._parse_channel_open(m)
+        except Exception as e:  # noqa
+            errs.append(repr(e))
+
+    th = threading.Thread(target=peer, daemon=True)
+    th.start()
+    paused.wait(RACE_WD)
+    local = {"id": None, "obj": None, "when": None}
+
+    def local_open(when):
+        cid = t._next_channel()
+        obj = Stub()
+        t._channels.put(cid, obj)
+        d.keep[("local", cid)] = obj
+        local.update(id=cid, obj=obj, when=when)
+
+    if paused.is_set() and t.lock.acquire(False):
+        try:
+            local_open("while the peer open was inside _next_channel (Transport.lock was free)")
+        finally:
+            t.lock.release()
+    resume.set()
+    th.join(RACE_WD)
+    if local["id"] is None:
+        t.lock.acquire()
+        try:
+            local_open("after the peer open (Transport.lock was held during its reservation)")
+        finally:
+            t.lock.release()
+    t._channels.get = orig_get
+    peer_id = d.reserved
+    peer_chan = orig_get(peer_id) if peer_id is not None else None
+    obs = {"peer_id": peer_id, "local_id": local["id"], "local_ran": local["when"],
+           "map_has_local_object": orig_get(local["id"]) is local["obj"],
+           "map_has_peer_channel": peer_chan is not None and getattr(peer_chan, "chanid", None) == peer_id
+           and not isinstance(peer_chan, Stub),
+           "live_entries": len(t._channels), "expected_live_entries": len(live0) + 2,
+           "errors": errs, "thread_finished": not th.is_alive()}
+    d.finish()
+    return obs
+
+
+def check_race(ctx, c0, live0, pause_at):
+    obs = race_case(c0, live0, pause_at)
+    case = {"race": True, "c0": c0, "live0": live0, "pause_at": pause_at,
+            "schedule": ["peer: _parse_channel_open(session) runs up to look-up #%d of the live map inside "
+                         "_next_channel" % pause_at,
+                         "local: open_channel's critical section, if Transport.lock is free",
+                         "peer: resumes and registers its channel",
+                         "local: open_channel's critical section, if it has not run yet"]}
+    ctx.count(("race", c0, tuple(live0), pause_at), kind="race")
+    if obs["errors"] or not obs["thread_finished"] or obs["peer_id"] is None:
+        ctx.fail("race-peer-open-failed", "the peer open did not complete in the two-thread schedule",
+                 case=case, observed=obs)
+        return
+    if obs["peer_id"] == obs["local_id"]:
+        ctx.fail("peer-local-same-id", "a peer-opened and a locally opened channel were given the same id: the "
+                 "reservation in _parse_channel_open is not made under Transport.lock, and the later put() replaced "
+                 "the other channel in the map", case=case, expected="two distinct ids, both channels in the map",
+                 observed=obs)
+    elif not (obs["map_has_local_object"] and obs["map_has_peer_channel"]) \
+            or obs["live_entries"] != obs["expected_live_entries"] \
+            or not (0 <= obs["peer_id"] < M24 and 0 <= obs["local_id"] < M24):
+        ctx.fail("race-map-wrong", "after a concurrent peer open and local open the map does not hold both "
+                 "channels under their own ids", case=case, observed=obs)
+
+
 def replay(ctx, rep):
     case = rep.get("case") or {}
+    if case.get("race"):
+        if ctx.proof is None:
+            ctx.prove()
+        check_race(ctx, case["c0"], case["live0"], case["pause_at"])
+        ctx.count(("replay2", repr(case)))
+        return
     if "ops" not in case:
         run(ctx)
         return
